@@ -12,7 +12,7 @@
      b,d,e  begin / dur / end in integer ticks of the per-case base P.D, NONE when not specified
      reg    value of the region attribute ("" = not specified); rid = xml:id of a region node
      srefs  the style attribute (sequence of ids); attrs = inline style attributes, <<name, value>> pairs
-     nested (region only) the attribute lists of the nested style children, in document order
+     nested (region only) the attribute lists of the nested style children, in document order; nrefs their style attributes
      space, lang  xml:space / xml:lang ("" = not specified);  tag = the text of a text node
      sprop, sval  (set only) the animated property and its value
    styling S : sequence of [id, refs, attrs] (style elements), initials I : sequence of <<name, value>>.
@@ -200,12 +200,15 @@ Reaches(S, from, to, seen) ==
      IN  j # 0 /\ (j = to \/ (j \notin seen /\ Reaches(S, j, to, seen \cup {j})))
 StyleGraphAcyclic(S) == \A i \in 1..Len(S) : ~Reaches(S, i, i, {i})
 
-RECURSIVE FoldNested(_, _, _)
-FoldNested(nested, i, acc) == IF i > Len(nested) THEN acc ELSE FoldNested(nested, i + 1, Over(acc, nested[i]))
+\* nested style children in document order; each contributes its own (chained) references below its own attributes
+RECURSIVE FoldNested(_, _, _, _, _)
+FoldNested(S, nested, nrefs, i, acc) ==
+  IF i > Len(nested) THEN acc
+  ELSE FoldNested(S, nested, nrefs, i + 1, Over(acc, Over(MergeRefs(S, nrefs[i], 1, {}, <<>>), nested[i])))
 
 Specified(S, nd) ==
   Over(Over(MergeRefs(S, nd.srefs, 1, {}, <<>>),
-            IF nd.kind = "region" THEN FoldNested(nd.nested, 1, <<>>) ELSE <<>>),
+            IF nd.kind = "region" THEN FoldNested(S, nd.nested, nd.nrefs, 1, <<>>) ELSE <<>>),
        nd.attrs)
 
 (* Computed token of an observed property at time t (TTML2 sec. 10.4.4.3/4): an active set (the last in document order),
@@ -296,7 +299,7 @@ BuildDoc(s, a) ==
   IN  [x \in 1..Len(skel) |->
          [kind |-> skel[x].kind, parent |-> skel[x].parent, kids |-> KidsOf(skel, x), tc |-> ch(x)[4],
           b |-> dbl(ch(x)[1]), d |-> dbl(ch(x)[2]), e |-> dbl(ch(x)[3]), reg |-> "", rid |-> "", srefs |-> <<>>,
-          attrs |-> <<>>, nested |-> <<>>, space |-> "", lang |-> "", tag |-> "", sprop |-> "color", sval |-> "red"]]
+          attrs |-> <<>>, nested |-> <<>>, nrefs |-> <<>>, space |-> "", lang |-> "", tag |-> "", sprop |-> "color", sval |-> "red"]]
 
 Doc == BuildDoc(sh, asg)
 VisibleNow(N, iv, tt) == {x \in 1..Len(N) : XmlVisible(N, iv, x, tt)}
